@@ -167,7 +167,7 @@ def execute(case):
     V, keys, obs = [], [], []
     faults = {"write_error": 0, "restart": 0}
     probes = {"unseen_ngram_in_query": 0, "empty_query": 0, "repeated_token_query": 0,
-              "load_of_torn_file": 0, "save_fault_not_reached": 0, "load_compared": 0,
+              "lopsided_posterior": 0, "load_of_torn_file": 0, "save_fault_not_reached": 0, "load_compared": 0,
               "model_intact_after_failed_save": 0, "corpus_candidates": 0}
     n_eval = 0
     store = SimStore(faults)
@@ -212,6 +212,8 @@ def execute(case):
                     probes["unseen_ngram_in_query"] += 1
                 if not doc:
                     probes["empty_query"] += 1
+                if abs(want[1] - want[0]) > 36.0:
+                    probes["lopsided_posterior"] += 1
                 if len(set(doc)) < len(doc):
                     probes["repeated_token_query"] += 1
                 if grams & ref.vocab:
@@ -383,6 +385,25 @@ def execute(case):
 
 # --------------------------------------------------------------------------
 def _corpus(rng):
+    if rng.random() < 0.2:
+        # lopsided: nearly disjoint class vocabularies and many documents, so that long
+        # queries have posteriors of 1 - 1e-40 (log-odds far beyond +-35)
+        pos = ["p%d" % i for i in range(rng.randint(2, 4))]
+        neg = ["n%d" % i for i in range(rng.randint(2, 4))]
+        shared = ["s0"]
+        X, y = [], []
+        for _ in range(rng.randint(12, 30)):
+            lab = rng.choice([1, -1])
+            pool = (pos if lab == 1 else neg) + (shared if rng.random() < 0.2 else [])
+            X.append([rng.choice(pool) for _ in range(rng.randint(3, 8))])
+            y.append(lab)
+        if 1 not in y:
+            y[0] = 1
+            X[0] = [pos[0]] * 3
+        if -1 not in y:
+            y[-1] = -1
+            X[-1] = [neg[0]] * 3
+        return X, y, rng.choice([pos, neg]) * 3
     a = rng.choice([1, 2, 3, 5, 8, 12])
     alphabet = ["t%d" % i for i in range(a)]
     if rng.random() < 0.4:
@@ -403,7 +424,7 @@ def _corpus(rng):
 
 
 def _doc(rng, alphabet):
-    ln = rng.choice([0, 1, 2, 3, 4, 6, 9])
+    ln = rng.choice([0, 1, 2, 3, 4, 6, 9, 14])
     pool = alphabet + ["unseen%d" % i for i in range(2)]
     return [rng.choice(pool if rng.random() < 0.35 else alphabet) for _ in range(ln)]
 
